@@ -1474,14 +1474,13 @@ func checkFramedOnlyThroughSendRPC(c *Ctx, r *Report, rule string) {
 		if fn.Pkg == nil || !strings.HasSuffix(fn.Pkg.Pkg.Path(), "driver/netconf") {
 			continue
 		}
-		for _, ci := range callInstrs(fn) {
-			call, ok := ci.(*ssa.Call)
+		// every use of the framed bytes of a serialized request (a load of the field framedXML that is handed to a call:
+		// the channel's Write*, a write helper, the response constructor) sits in sendRPC or in a helper only it calls
+		seenTop := map[*ssa.Function]bool{}
+		allInstrs(fn, func(in ssa.Instruction) {
+			call, ok := in.(*ssa.Call)
 			if !ok {
-				continue
-			}
-			callee := call.Call.StaticCallee()
-			if callee == nil || callee.Signature.Recv() == nil || !strings.HasPrefix(callee.Name(), "Write") || callee.Pkg == nil || !strings.HasSuffix(callee.Pkg.Pkg.Path(), "/channel") {
-				continue
+				return
 			}
 			framed := false
 			for _, a := range call.Call.Args {
@@ -1490,23 +1489,27 @@ func checkFramedOnlyThroughSendRPC(c *Ctx, r *Report, rule string) {
 				}
 			}
 			if !framed {
-				continue
+				return
 			}
-			n++
 			top := fn
 			for top.Parent() != nil {
 				top = top.Parent()
 			}
-			construct := fmt.Sprintf("framed request written in %s", shortFn(top))
+			if seenTop[top] {
+				return
+			}
+			seenTop[top] = true
+			n++
+			construct := fmt.Sprintf("framed request used in %s", shortFn(top))
 			if onlyFromSend(top) {
 				r.OK(rule, construct, c.Pos(call.Pos()), "inside sendRPC")
 			} else {
-				r.Bad(rule, construct, c.Pos(call.Pos()), "a serialized request is handed to the channel outside sendRPC: the write sequence that makes it one complete message (framed bytes, a return, and under 1.1 the further return that completes the end-of-chunks marker) is not applied, so under 1.1 the message stays unterminated on the wire")
+				r.Bad(rule, construct, c.Pos(call.Pos()), "a serialized request is handed on outside sendRPC: the write sequence that makes it one complete message (framed bytes, a return, and under 1.1 the further return that completes the end-of-chunks marker) is not applied, so under 1.1 the message stays unterminated on the wire")
 			}
-		}
+		})
 	}
 	if n == 0 {
-		r.Unk(rule, "framed request writes", "-", "no write of framedXML found in the NETCONF driver")
+		r.Unk(rule, "framed request uses", "-", "no use of framedXML found in the NETCONF driver")
 	}
 }
 
